@@ -12,3 +12,9 @@ mod c23_header;
 mod side;
 #[cfg(kani)]
 mod c20_side;
+#[cfg(kani)]
+mod c25_sanity;
+#[cfg(kani)]
+mod layout;
+#[cfg(kani)]
+mod c32_descriptor;
